@@ -6,7 +6,10 @@ import (
 	"bufio"
 	"encoding/hex"
 	"encoding/json"
+	"flag"
 	"fmt"
+	"io"
+	"log"
 	"os"
 	"path/filepath"
 	"sort"
@@ -31,8 +34,8 @@ func (r *Rand) Intn(n int) int {
 	}
 	return int(r.U64() % uint64(n))
 }
-func (r *Rand) Bool() bool         { return r.U64()&1 == 1 }
-func (r *Rand) Chance(p int) bool  { return r.Intn(100) < p }
+func (r *Rand) Bool() bool              { return r.U64()&1 == 1 }
+func (r *Rand) Chance(p int) bool       { return r.Intn(100) < p }
 func (r *Rand) Pick(xs []string) string { return xs[r.Intn(len(xs))] }
 func (r *Rand) Bytes(n int) []byte {
 	b := make([]byte, n)
@@ -236,4 +239,53 @@ func Guard(f func() string) (out string) {
 		}
 	}()
 	return f()
+}
+
+// Main is the command line of every pkh-cXX binary:
+//
+//	pkh-cXX -seed N -tier quick|thorough -out DIR     generate, execute, evaluate the oracle
+//	pkh-cXX -replay OPSFILE                            execute op lines on the implementation
+func Main(prop string, run func(*Run), newExec func() func([]string) string) {
+	log.SetOutput(io.Discard)
+	seed := flag.Uint64("seed", 1, "PRNG seed")
+	tier := flag.String("tier", "quick", "quick|thorough")
+	out := flag.String("out", "", "output directory")
+	replay := flag.String("replay", "", "file of op lines to execute on the implementation")
+	flag.Parse()
+	if *replay != "" {
+		f, err := os.Open(*replay)
+		if err != nil {
+			fmt.Fprintln(os.Stderr, err)
+			os.Exit(2)
+		}
+		ex := newExec()
+		sc := bufio.NewScanner(f)
+		sc.Buffer(make([]byte, 1<<20), 1<<28)
+		w := bufio.NewWriter(os.Stdout)
+		defer w.Flush()
+		for sc.Scan() {
+			l := sc.Text()
+			if strings.HasPrefix(l, "#") {
+				fmt.Fprintln(w, l)
+				ex = newExec()
+				continue
+			}
+			fmt.Fprintln(w, ex(strings.Fields(l)))
+		}
+		return
+	}
+	if *out == "" {
+		fmt.Fprintln(os.Stderr, "-out required")
+		os.Exit(2)
+	}
+	r, err := NewRun(prop, *seed, *tier, *out)
+	if err != nil {
+		fmt.Fprintln(os.Stderr, err)
+		os.Exit(2)
+	}
+	run(r)
+	if err := r.Close(); err != nil {
+		fmt.Fprintln(os.Stderr, err)
+		os.Exit(2)
+	}
 }
